@@ -31,7 +31,8 @@ class StringNode(BaseNode, SelectNode):
     def set_value(self, value=None):
         """ Set value using value_raw or arbitrary value
         """
-        if value is None and self.value_raw:
+        if value is None and (self.value_raw or (self.value_raw=='' and (self.value_injected or not self.value_ref))):
+            # an empty string is a value; '' also stands for a reference that has not been resolved
             self.value = StringType(self.cast_value())
         elif value is not None:
             self.value = StringType(value)
